@@ -87,6 +87,9 @@ def case_st(draw):
             "timing": draw(st.sampled_from([[5, 0], [5, 0], [5, 0], [50, 0], [50, 35], [50, 29.9], [120, 100]])),
             # another proxy location for the same upstream with a much longer timeout, created first
             "sibling": draw(st.booleans()),
+            # a second downstream request through the same location: it connects to the upstream after the first one and
+            # is answered later (conforming 20 response), the first one finishes (or fails) while it is still pending
+            "overlap": draw(st.integers(0, 3)) == 0,
             "tls_chunk": draw(st.sampled_from([0, 0, 5, 50]))}
 
 
@@ -136,10 +139,20 @@ def run_case(case: dict):
             n = case["chunk"]
             return [b] if not n else [b[k:k + n] for k in range(0, len(b), n)]
 
+        overlap = bool(case.get("overlap")) and not case["down_disconnect"]
         script = [("wait_request", 1.0)] + ([("sleep", float(delay))] if delay else [])
+        if overlap:
+            # the companion request (path /second) is held back by the upstream until well after the first is done
+            script = [("wait_request", 1.0), ("sleep", lambda req: (float(delay) + 3.0) if b"/second" in req else float(delay))]
+        second_reply = b"20 text/gemini\r\nSECOND-BODY"
         if fault in (None,):
+            first = True
             for ch in chunks(data):
-                script += [("send", ch)]
+                if overlap:
+                    script += [("respond", (lambda req, ch=ch, first=first: (second_reply if first else b"") if b"/second" in req else ch))]
+                else:
+                    script += [("send", ch)]
+                first = False
             script += [("mark",), ("close",)]
         elif fault == "close-before-header":
             script += [("mark",), ("close",)]
@@ -178,6 +191,12 @@ def run_case(case: dict):
         tr.attach(proto)
         t0 = loop.time()
         tr.feed(b"gemini://front.example/page?q=1\r\n")
+        tr2 = None
+        if overlap:
+            await vloop.settle(6)  # the first request's upstream connection exists
+            tr2 = FakeTransport(loop, peername=("192.0.2.88", 40002))
+            tr2.attach(GeminiServerProtocol(route, None))
+            tr2.feed(b"gemini://front.example/second\r\n")
         if case["down_disconnect"]:
             await asyncio.sleep(0.001)
             tr.peer_disconnect(None)
@@ -189,13 +208,18 @@ def run_case(case: dict):
             await asyncio.sleep(0.1)
         t_resp = loop.time() - t0
         await asyncio.sleep(100)
-        return tr, t_resp, [(h, p) for (h, p, _t) in loop.connection_log], up
+        return tr, t_resp, [(h, p) for (h, p, _t) in loop.connection_log], up, (tr2.written() if tr2 is not None else None)
 
-    tr, t_resp, conns, up = vloop.run(scenario, horizon=1e6)
+    tr, t_resp, conns, up, S_second = vloop.run(scenario, horizon=1e6)
     S = tr.written()
-    info = {"S": b2s(S[:60]), "t": round(t_resp, 2), "conns": len(conns), "fault": fault, "slow_up": bool(delay)}
-    if len(conns) > 1:
+    info = {"S": b2s(S[:60]), "t": round(t_resp, 2), "conns": len(conns), "fault": fault, "slow_up": bool(delay),
+            "overlap": S_second is not None}
+    if len(conns) > (2 if S_second is not None else 1):
         return viol("more-than-one-upstream-connection", f"{conns}", **info)
+    if S_second is not None and fault is None and S_second != b"20 text/gemini\r\nSECOND-BODY":
+        # the companion request goes to a healthy upstream that answers it a little later
+        return viol("response-not-relayed-verbatim", f"a second request through the same location, pending while the first one finished, was "
+                    f"answered {S_second[:70]!r}; the upstream sent b'20 text/gemini\\r\\nSECOND-BODY' for it", **info)
     if case["down_disconnect"]:
         late = [e for e in tr.events if e[0] == "write" and tr.events.index(e) > next((k for k, x in enumerate(tr.events) if x[0] == "peer-gone"), 10**9)]
         if late:
@@ -274,7 +298,7 @@ def _nontrivial(case, v):
 
 def _labels(case, v):
     return list(case["labels"]) + ["timing:%s/%s" % tuple(case.get("timing") or [5, 0]), "fault:" + str(case["fault"]), "ref:" + str(v.info.get("ref")), "status:" + v.info.get("S", "")[:2]] + \
-        (["down-disconnect"] if case["down_disconnect"] else [])
+        (["down-disconnect"] if case["down_disconnect"] else []) + (["overlap"] if v.info.get("overlap") else [])
 
 
 def _bucket(case, v):
